@@ -45,9 +45,6 @@ TRUSTED = ['pbt/reservation.py (FakeLdap, Model)']
 BUDGET = {'quick': 8000, 'thorough': 128000}
 
 _API = {}
-# Calibration knob only (never set by ./check or the manifest): buckets named
-# here are counted and stepped over so that the search continues behind them.
-_IGNORE = set(filter(None, os.environ.get('C19_IGNORE', '').split(',')))
 
 
 def _api():
@@ -108,9 +105,12 @@ def execute(case, stats):
 
     directory = rsvlib.Directory()
     model = rsvlib.Model()
-    saved = (mod._admin_partition, mod._admin_cell_alloc)
-    mod._admin_partition = lambda: directory.partition
-    mod._admin_cell_alloc = lambda: directory.cell_alloc
+    from treadmill import context
+    admin_ctx = context.GLOBAL.admin
+    saved = admin_ctx._conn                   # pylint: disable=W0212
+    # allocation._admin_partition() / _admin_cell_alloc() are the real ones:
+    # context.GLOBAL.admin -> AdminLdapBackend -> WrappedAdmin -> _ldap.Admin
+    admin_ctx._conn = directory.backend       # pylint: disable=W0212
     nontrivial = False
     try:
         for part in case['partitions']:
@@ -131,9 +131,17 @@ def execute(case, stats):
             alloc, cell = rid.rsplit('/', 1)
             where = 'step %d %s %s' % (idx, step['op'], rid)
             if step['op'] == 'delete':
-                api.reservation.delete(rid)
-                model.rsv.pop(rid, None)
                 stats.count('op:delete')
+                try:
+                    api.reservation.delete(rid)
+                except admin_exc.NoSuchObjectResult:
+                    if rid in model.rsv:
+                        raise Violation(
+                            'c19.delete.existing-not-found',
+                            '%s: reservation exists but delete says it '
+                            'does not' % where)
+                    stats.count('delete_of_missing')
+                model.rsv.pop(rid, None)
                 continue
 
             rsrc = dict(step['rsrc'])
@@ -144,18 +152,21 @@ def execute(case, stats):
             stats.count('op:' + step['op'])
             stats.count('aim:' + step.get('aim', '?'))
 
-            # what the reservation would be if accepted
-            if is_update:
-                if old is not None:
-                    eff_part = rsrc.get('partition', old['partition'])
-                    eff_traits = rsrc.get('traits', old['traits'])
-                else:
-                    eff_part = rsrc.get('partition',
-                                        rsvlib.DEFAULT_PARTITION)
-                    eff_traits = rsrc.get('traits', [])
+            # what the reservation would be if accepted, as the system will
+            # report it when listed.  An explicit "partition": null is stored
+            # without a partition attribute and is reported (from_entry) as a
+            # reservation of the default partition.
+            null_part = 'partition' in rsrc and rsrc['partition'] is None
+            if is_update and old is not None:
+                eff_part = rsrc.get('partition', old['partition'])
+                eff_traits = rsrc.get('traits', old['traits'])
             else:
                 eff_part = rsrc.get('partition', rsvlib.DEFAULT_PARTITION)
                 eff_traits = rsrc.get('traits', [])
+            if eff_part is None:
+                eff_part = rsvlib.DEFAULT_PARTITION
+            if null_part:
+                stats.count('null_partition')
             amt = rsvlib.amounts(rsrc)
             misfits = model.misfits(cell, eff_part, eff_traits, amt, rid)
             shares = model.sharers(cell, eff_part, eff_traits, rid)
@@ -181,7 +192,7 @@ def execute(case, stats):
                 outcome = 'rejected'
             except admin_exc.AlreadyExistsResult:
                 outcome = 'exists'
-            except admin_exc.NoSuchObjectResult:
+            except (admin_exc.NoSuchObjectResult, exc.NotFoundError):
                 outcome = 'missing'
             except jsonschema.ValidationError as err:
                 # reservation.json#/verbs/update requires a partition; the
@@ -193,23 +204,34 @@ def execute(case, stats):
                 outcome = 'invalid'
             except Exception as err:  # pylint: disable=broad-except
                 name = type(err).__name__
-                bucket = 'c19.service-failure.%s' % name
-                if is_update and 'partition' not in rsrc and \
-                        isinstance(err, KeyError):
-                    bucket = 'c19.service-failure.update-without-partition'
-                if bucket in _IGNORE:
-                    stats.count('calibration_ignored:' + bucket)
-                    continue
-                raise Violation(
-                    bucket,
-                    '%s: request %r (fits=%s, shares limited trait %s with '
-                    'another reservation) raised %s(%s) instead of being '
-                    'accepted or rejected with InvalidInputError'
-                    % (where, rsrc, not misfits, shares, name, err))
+                # A request that ends in an exception is not accepted.  Where
+                # the thing it names does not exist there is no capacity
+                # decision to judge: count it, and (below) require that it
+                # wrote nothing.
+                looked_up = rsrc.get('partition', rsvlib.DEFAULT_PARTITION)
+                if is_update and old is not None:
+                    looked_up = rsrc.get('partition', old['partition'])
+                if is_update and old is None:
+                    context = 'update-of-missing'
+                elif (cell, looked_up) not in model.partitions:
+                    context = 'partition-missing'
+                else:
+                    context = None
+                if context is None:
+                    # partition and reservation exist: the statement asks for
+                    # accept or an input error, not a failure of the service
+                    raise Violation(
+                        'c19.service-failure.%s' % name,
+                        '%s: request %r (fits=%s, shares limited trait %s '
+                        'with another reservation) raised %s(%s) instead of '
+                        'being accepted or rejected with InvalidInputError'
+                        % (where, rsrc, not misfits, shares, name, err))
+                outcome = 'failed'
+                stats.count('rejected:%s.%s' % (name, context))
             stats.count('outcome:' + outcome)
 
-            if outcome == 'invalid':
-                pass                      # refused as input error, no change
+            if outcome in ('invalid', 'failed'):
+                pass                      # not accepted: nothing may change
             elif not is_update and old is not None:
                 # create over an existing id: never a new promise
                 if outcome not in ('rejected', 'exists'):
@@ -233,32 +255,37 @@ def execute(case, stats):
                             mf[0] != 'partition' for mf in misfits):
                         bucket = ('c19.update.traits-omitted.'
                                   'accepted-over-trait-limit')
-                    if bucket in _IGNORE:
-                        stats.count('calibration_ignored:' + bucket)
-                        misfits = []
-                    else:
-                        raise Violation(
-                            bucket,
-                            '%s: request %r accepted although %s %s wants '
-                            '%d, free %d (cell %s partition %s, traits '
-                            'carried %s)'
-                            % (where, rsrc, scope, dim, want, free, cell,
-                               eff_part, eff_traits))
+                    raise Violation(
+                        bucket,
+                        '%s: request %r accepted although %s %s wants %d, '
+                        'free %d (cell %s partition %s, traits carried %s)'
+                        % (where, rsrc, scope, dim, want, free, cell,
+                           eff_part, eff_traits))
                 merged = {'partition': eff_part, 'traits': eff_traits}
                 merged.update({dim: rsrc[dim] for dim in rsvlib.DIMS})
                 model.put(rid, cell, merged)
                 stats.count('accepted_exact_fit' if step.get('aim') == 'exact'
                             else 'accepted_other')
+                if null_part:
+                    stats.count('null_partition_accepted')
             elif outcome == 'rejected':
-                if not misfits:
+                if null_part:
+                    # Which partition a null names before anything is stored
+                    # is not defined (the tree treats it as one that does not
+                    # exist, i.e. zero capacity): only the accepted direction
+                    # is asserted for these requests.
+                    stats.count('null_partition_rejected')
+                elif not misfits:
                     raise Violation(
                         'c19.rejected.fitting-request',
                         '%s: request %r rejected although it fits (cell %s '
                         'partition %s, traits carried %s, head-room %r)'
                         % (where, rsrc, cell, eff_part, eff_traits,
                            model.headroom(cell, eff_part, eff_traits, rid)))
-                stats.count('rejected_one_over' if step.get('aim') == 'over'
-                            else 'rejected_other')
+                if not null_part:
+                    stats.count('rejected_one_over'
+                                if step.get('aim') == 'over'
+                                else 'rejected_other')
             else:
                 raise Violation(
                     'c19.unexpected-outcome.' + outcome,
@@ -276,7 +303,7 @@ def execute(case, stats):
                                      [got.get(k) for k in diff],
                                      [want.get(k) for k in diff]))
     finally:
-        mod._admin_partition, mod._admin_cell_alloc = saved
+        admin_ctx._conn = saved               # pylint: disable=W0212
     return nontrivial
 
 
@@ -360,6 +387,28 @@ def fixed_cases():
                     {'op': 'create', 'id': 't2/uat/c1', 'aim': 'over',
                      'rsrc': {'cpu': '0%', 'memory': '1K', 'disk': '0K',
                               'partition': 'p1', 'traits': ['a']}}],
+        }),
+        # explicit "partition": null - stored without the attribute, listed
+        # as _default; whatever is accepted that way keeps counting against
+        # _default (create, then update to null of a reservation of p1)
+        ('null-partition-still-counts', {
+            'partitions': [_p('_default', '200%', '20G', '20G'),
+                           _p('p1', '200%', '20G', '20G')],
+            'existing': [{'id': 't3/qa/c1',
+                          'rsrc': {'cpu': '100%', 'memory': '4G',
+                                   'disk': '4G', 'partition': 'p1',
+                                   'traits': []}}],
+            'ops': [{'op': 'create', 'id': 't1/dev/c1', 'aim': 'under',
+                     'rsrc': {'cpu': '100%', 'memory': '10G', 'disk': '10G',
+                              'partition': None}},
+                    {'op': 'create', 'id': 't2/dev/c1', 'aim': 'over',
+                     'rsrc': {'cpu': '150%', 'memory': '5G', 'disk': '5G',
+                              'partition': '_default'}},
+                    {'op': 'update', 'id': 't3/qa/c1', 'aim': 'under',
+                     'rsrc': {'cpu': '0%', 'memory': '8G', 'disk': '8G',
+                              'partition': None}},
+                    {'op': 'create', 'id': 't2/uat/c1', 'aim': 'over',
+                     'rsrc': {'cpu': '0%', 'memory': '8G', 'disk': '8G'}}],
         }),
         # update that does not re-send the partition (schema-valid as the
         # API declares it): first one that fits, then one over the limit
